@@ -127,6 +127,33 @@ class Module:
                     if key in self.functions:
                         self.functions[key].node = sub
             self.inlined_helpers[q] = sorted(set(inl))
+        # a private new helper that is no longer called anywhere in the module has been read in place at every call site:
+        # analysing it again on its own would only report the same constructs under a second name
+        self.absorbed_helpers: list[str] = []
+        for q in sorted(new):
+            fi = self.functions.get(q)
+            if fi is None or not fi.name.startswith("_") or fi.name.startswith("__"):
+                continue
+            nm = fi.name
+            own = {id(x) for x in ast.walk(fi.node)}
+            uses = []
+            for x in ast.walk(self.tree):
+                if id(x) in own:
+                    continue
+                if (isinstance(x, ast.Name) and x.id == nm and isinstance(x.ctx, ast.Load)) or (isinstance(x, ast.Attribute) and x.attr == nm and isinstance(x.value, ast.Name) and x.value.id in ("self", "cls", fi.cls or "")):
+                    uses.append(x)
+            if uses:
+                continue  # still called (expression position that could not be hoisted, unsupported shape) or passed around
+            par = getattr(fi.node, "_parent", None)
+            if par is not None and fi.node in getattr(par, "body", []):
+                par.body.remove(fi.node)
+                if not par.body:
+                    par.body.append(ast.Pass())
+            for k in [k for k, f in self.functions.items() if f is fi or f.parent_func == q]:
+                del self.functions[k]
+            if fi.cls and fi.cls in self.classes and self.classes[fi.cls].methods.get(nm) is fi:
+                del self.classes[fi.cls].methods[nm]
+            self.absorbed_helpers.append(q)
 
     # ------------------------------------------------------------------ index
     def _index(self) -> None:
